@@ -141,16 +141,22 @@ func (c *RepoCache) Pull(remote string) error {
 		return err
 	}
 
+	// Read the results up to the end, even after a failure: the entities that come after the
+	// failed one are merged in the repository anyway, and the sub-caches only register a merged
+	// entity (and write their excerpts) as long as somebody reads what they report.
+	var firstErr error
 	for merge := range c.MergeAll(remote) {
-		if merge.Err != nil {
-			return merge.Err
+		if firstErr != nil {
+			continue
 		}
-		if merge.Status == entity.MergeStatusInvalid {
-			return errors.Errorf("merge failure: %s", merge.Reason)
+		if merge.Err != nil {
+			firstErr = merge.Err
+		} else if merge.Status == entity.MergeStatusInvalid {
+			firstErr = errors.Errorf("merge failure: %s", merge.Reason)
 		}
 	}
 
-	return nil
+	return firstErr
 }
 
 func (c *RepoCache) SetUserIdentity(i *IdentityCache) error {
